@@ -393,6 +393,32 @@ def r15_no_read_ahead_is_thrown_away(ctx):
            % ctx.P.owner(bad[0][0]))
 
 
+def r16_poll_read_appends(ctx):
+    """Stream::poll_read hands bytes to the caller by *appending* to the ReadBuf (put_slice / advance): a caller may come in with a
+    partly filled buffer (read_exact across two chunks, io::copy under back-pressure), and anything that sets the filled length
+    absolutely (`set_filled(n)`) moves the cursor backwards over bytes already delivered"""
+    n = 0
+    bad = []
+    app = []
+    for key, body in ctx.P.bodies.items():
+        if not (key.startswith("<session::stream::Stream as tokio::io::AsyncRead>::poll_read")) or key in ctx.P.inlined_away:
+            continue
+        n += 1
+        for c in body.calls():
+            last = (c.norm or "").split("::")[-1]
+            if "ReadBuf" in (c.norm or ""):
+                if last in ("set_filled", "clear", "assume_init", "take", "unfilled_mut"):
+                    bad.append(c)
+                if last in ("put_slice", "advance"):
+                    app.append(c)
+    if not ctx.floor("R01.16", "bodies of Stream::poll_read", n, 1):
+        return
+    ctx.ob("R01.16", "poll_read:appends-to-the-ReadBuf", bool(app) and not bad, (bad or app or [None])[0].site if (bad or app) else "",
+           "bytes are published with %s only" % sorted({(c.norm or "").split("::")[-1] for c in app}) if app and not bad else
+           "Stream::poll_read publishes its bytes with `%s`: entered with a partly filled ReadBuf the filled cursor jumps backwards, so bytes already handed to the caller are overwritten or lost "
+           "(read_exact of a record spanning two chunks stalls or reports a bogus early eof)" % ((bad[0].norm.split("::")[-1]) if bad else "nothing that appends"))
+
+
 def r14_one_path_per_stream(ctx):
     """the bytes a front-end / relay submits on a stream take one route to the wire: either the stream's outbound queue
     (Stream::send_data / AsyncWrite, drained by the forwarding task) or direct Session::write_data_frame calls — never both, because
@@ -527,6 +553,9 @@ def run(ctx):
     r13_no_cancel_and_retry_of_framed_reads(ctx)
     r14_one_path_per_stream(ctx)
     r15_no_read_ahead_is_thrown_away(ctx)
+    r16_poll_read_appends(ctx)
+    from . import C11 as _C11c
+    _C11c.r7_cancellation(ctx)    # a frame write dropped half-way leaves a fragment in front of the stream data that follows
     from . import C17 as _C17
     _C17.r3b_scan_window(ctx)   # the HTTP front-end finds the end of the head wherever the reads happen to cut it: nothing behind it is mistaken for header lines
     from . import C08
